@@ -66,7 +66,8 @@ class C11(object):
                          'switch.failing_period_traced',
                          'reserved_token_in_expression.judged',
                          'decl.two_candidate_suppliers_one_built_without_F',
-                         'decl.scratch_model_created_during_construction')
+                         'decl.scratch_model_created_during_construction',
+                         'decl.cross_currency_residual_supplier_without_external_sector')
 
     def n_cases(self, tier):
         self._names = all_reserved()
@@ -120,6 +121,8 @@ class C11(object):
             # model is being put together: it must be refused all the same
             return {'kind': 'decl', 'which': ['two_suppliers', 'xsupplier_no_ext', 'no_supplier', 'xflow_no_ext'][(idx // 20) % 4],
                     'n_extra': rng.randint(0, 2), 'scratch_sweep': True}
+        if m == 9 and (idx // 10) % 3 == 1:
+            return {'kind': 'decl', 'which': 'xsupplier_no_ext', 'n_extra': rng.randint(0, 2), 'foreign_supplier_is_the_residual_one': True}
         if m == 9 and (idx // 10) % 3 == 0:
             # two candidate suppliers, one of them built with has_F=False (constructor arguments away from their defaults)
             return {'kind': 'decl', 'which': 'two_suppliers_one_without_F', 'n_extra': rng.randint(0, 2)}
@@ -457,6 +460,12 @@ class C11(object):
                     if which == 'xflow_no_ext':
                         hh.AddVariable('GIFT', 'gift', '2.0')
                         mod.RegisterCashFlow(hh, hh2, 'GIFT')
+                    elif case.get('foreign_supplier_is_the_residual_one'):
+                        # the supplier abroad is the RESIDUAL supplier (no supply function of its own), the domestic one has a rule
+                        good.AddSupplier(bus, '0.1*' + hh.GetVariableName('INC'))
+                        good.AddSupplier(bus2)
+                        bus2.AddVariable('SUP_CA_GOOD', 'exports', '')
+                        rec.count('decl.cross_currency_residual_supplier_without_external_sector')
                     else:
                         good.AddSupplier(bus2, '0.1*' + hh.GetVariableName('INC'))
                         good.AddSupplier(bus)
